@@ -259,3 +259,151 @@ Lemma final_squeeze_translated : forall env,
   dB env (g "if" "" 5%nat) = Some (e_B_some env && e_squeeze env) /\
   g "return" "" 0%nat = PCall (PAttr (PName "np") "squeeze") [PName "B"] [] /\ g "return" "" 1%nat = PName "B".
 Proof. intros env. repeat split. Qed.
+
+(* ---- (3) observer-list formatting and the source-row bookkeeping of _getBH_level2 (round 6): the statements of
+   check_format_input_observers and of the collection-reduction block, as of /repo HEAD, reviewed ---- *)
+Definition expected_observers_arith : list (string * string * string * pyexp) := [
+  ("check_format_input_observers", "if", "",
+     (PCall (PName "isinstance") [(PName "inp"); (PTuple [(PName "Collection"); (PName "Sensor")])] []));
+  ("check_format_input_observers", "assign", "inp",
+     (PTuple [(PName "inp")]));
+  ("check_format_input_observers", "endif", "",
+     PNone);
+  ("check_format_input_observers", "if", "",
+     (PUn "not" (PCall (PName "isinstance") [(PName "inp"); (PTuple [(PName "list"); (PName "tuple"); (PAttr (PName "np") "ndarray")])] [])));
+  ("check_format_input_observers", "raise", "MagpylibBadUserInput",
+     PNone);
+  ("check_format_input_observers", "endif", "",
+     PNone);
+  ("check_format_input_observers", "if", "",
+     (PCmp "==" (PCall (PName "len") [(PName "inp")] []) (PInt 0)));
+  ("check_format_input_observers", "raise", "MagpylibBadUserInput",
+     PNone);
+  ("check_format_input_observers", "endif", "",
+     PNone);
+  ("check_format_input_observers", "try", "",
+     PNone);
+  ("check_format_input_observers", "assign", "inp",
+     (PCall (PAttr (PName "np") "array") [(PName "inp")] [("dtype", (PName "float"))]));
+  ("check_format_input_observers", "assign", "pix_shapes",
+     (PList [(PIfExp (PCmp "==" (PAttr (PName "inp") "shape") (PTuple [(PInt 3)])) (PTuple [(PInt 1); (PInt 3)]) (PAttr (PName "inp") "shape"))]));
+  ("check_format_input_observers", "return", "",
+     (PTuple [(PList [(PCall (PAttr (PAttr (PAttr (PName "_src") "obj_classes") "class_Sensor") "Sensor") [] [("pixel", (PName "inp"))])]); (PName "pix_shapes")]));
+  ("check_format_input_observers", "except", "(TypeError, ValueError)",
+     PNone);
+  ("check_format_input_observers", "assign", "sensors",
+     (PList []));
+  ("check_format_input_observers", "for", "obj",
+     (PName "inp"));
+  ("check_format_input_observers", "if", "",
+     (PCall (PName "isinstance") [(PName "obj"); (PName "Sensor")] []));
+  ("check_format_input_observers", "expr", "",
+     (PCall (PAttr (PName "sensors") "append") [(PName "obj")] []));
+  ("check_format_input_observers", "else", "",
+     PNone);
+  ("check_format_input_observers", "if", "",
+     (PCall (PName "isinstance") [(PName "obj"); (PName "Collection")] []));
+  ("check_format_input_observers", "assign", "child_sensors",
+     (PCall (PName "format_obj_input") [(PName "obj")] [("allow", (PStr "sensors"))]));
+  ("check_format_input_observers", "if", "",
+     (PUn "not" (PName "child_sensors")));
+  ("check_format_input_observers", "raise", "MagpylibBadUserInput",
+     PNone);
+  ("check_format_input_observers", "endif", "",
+     PNone);
+  ("check_format_input_observers", "expr", "",
+     (PCall (PAttr (PName "sensors") "extend") [(PName "child_sensors")] []));
+  ("check_format_input_observers", "else", "",
+     PNone);
+  ("check_format_input_observers", "try", "",
+     PNone);
+  ("check_format_input_observers", "assign", "obj",
+     (PCall (PAttr (PName "np") "array") [(PName "obj")] [("dtype", (PName "float"))]));
+  ("check_format_input_observers", "expr", "",
+     (PCall (PAttr (PName "sensors") "append") [(PCall (PAttr (PAttr (PAttr (PName "_src") "obj_classes") "class_Sensor") "Sensor") [] [("pixel", (PName "obj"))])] []));
+  ("check_format_input_observers", "except", "Exception",
+     PNone);
+  ("check_format_input_observers", "raise", "MagpylibBadUserInput",
+     PNone);
+  ("check_format_input_observers", "endtry", "",
+     PNone);
+  ("check_format_input_observers", "endif", "",
+     PNone);
+  ("check_format_input_observers", "endif", "",
+     PNone);
+  ("check_format_input_observers", "endfor", "",
+     PNone);
+  ("check_format_input_observers", "assign", "pix_shapes",
+     (PComp (PIfExp (PBin "or" (PCmp "is" (PAttr (PName "s") "pixel") PNone) (PCmp "==" (PAttr (PAttr (PName "s") "pixel") "shape") (PTuple [(PInt 3)]))) (PTuple [(PInt 1); (PInt 3)]) (PAttr (PAttr (PName "s") "pixel") "shape")) (PName "s") (PName "sensors") []));
+  ("check_format_input_observers", "if", "",
+     (PBin "and" (PCmp "is" (PName "pixel_agg") PNone) (PUn "not" (PCall (PName "all_same") [(PName "pix_shapes")] []))));
+  ("check_format_input_observers", "raise", "MagpylibBadUserInput",
+     PNone);
+  ("check_format_input_observers", "endif", "",
+     PNone);
+  ("check_format_input_observers", "return", "",
+     (PTuple [(PName "sensors"); (PName "pix_shapes")]));
+  ("check_format_input_observers", "endtry", "",
+     PNone)].
+
+Definition expected_reduce_arith : list (string * string * string * pyexp) := [
+  ("_getBH_level2", "if", "",
+     (PCmp ">" (PName "num_of_src_list") (PName "num_of_sources")));
+  ("_getBH_level2", "for", "(src_ind, src)",
+     (PCall (PName "enumerate") [(PName "sources")] []));
+  ("_getBH_level2", "if", "",
+     (PCall (PName "isinstance") [(PName "src"); (PName "Collection")] []));
+  ("_getBH_level2", "assign", "col_len",
+     (PCall (PName "len") [(PCall (PName "format_obj_input") [(PName "src")] [("allow", (PStr "sources"))])] []));
+  ("_getBH_level2", "assign", "B[src_ind]",
+     (PCall (PAttr (PName "np") "sum") [(PSub (PName "B") (PSlice (Some (PName "src_ind")) (Some (PBin "+" (PName "src_ind") (PName "col_len")))))] [("axis", (PInt 0))]));
+  ("_getBH_level2", "assign", "B",
+     (PCall (PAttr (PName "np") "delete") [(PName "B"); (PSub (PAttr (PName "np") "s_") (PSlice (Some (PBin "+" (PName "src_ind") (PInt 1))) (Some (PBin "+" (PName "src_ind") (PName "col_len"))))); (PInt 0)] []));
+  ("_getBH_level2", "endif", "",
+     PNone);
+  ("_getBH_level2", "endfor", "",
+     PNone);
+  ("_getBH_level2", "endif", "",
+     PNone)].
+
+Lemma observers_arith_reviewed : observers_arith = expected_observers_arith.
+Proof. reflexivity. Qed.
+Lemma reduce_arith_reviewed : reduce_arith = expected_reduce_arith.
+Proof. reflexivity. Qed.
+
+(* every element of the list is put into `sensors` inside the one loop over `inp`, in the element's own turn *)
+Notation go k t n := (get "check_format_input_observers" k t n observers_arith).
+Lemma observers_loop_appends_in_turn :
+  go "for" "obj" 0%nat = PName "inp" /\
+  go "expr" "" 0%nat = PCall (PAttr (PName "sensors") "append") [PName "obj"] [] /\
+  go "expr" "" 1%nat = PCall (PAttr (PName "sensors") "extend") [PName "child_sensors"] [] /\
+  go "assign" "child_sensors" 0%nat = PCall (PName "format_obj_input") [PName "obj"] [("allow", PStr "sensors")] /\
+  go "expr" "" 2%nat = PCall (PAttr (PName "sensors") "append")
+     [PCall (PAttr (PAttr (PAttr (PName "_src") "obj_classes") "class_Sensor") "Sensor") [] [("pixel", PName "obj")]] [] /\
+  find_nth "check_format_input_observers" "expr" "" 3%nat observers_arith = None /\
+  go "return" "" 1%nat = PTuple [PName "sensors"; PName "pix_shapes"].
+Proof. repeat split; reflexivity. Qed.
+
+(* the slice that is summed into row src_ind and the slice that is deleted: [i, i+n) and [i+1, i+n) *)
+Lemma reduce_bounds : forall (i n : Z),
+  let env := fun s => if String.eqb s "src_ind" then Some i else if String.eqb s "col_len" then Some n else None in
+  match get "_getBH_level2" "assign" "B[src_ind]" 0%nat reduce_arith with
+  | PCall _ [PSub (PName "B") (PSlice (Some lo) (Some hi))] _ =>
+      (evalZ env (fun _ => None) lo, evalZ env (fun _ => None) hi)
+  | _ => (None, None) end = (Some i, Some (i + n)) /\
+  match get "_getBH_level2" "assign" "B" 0%nat reduce_arith with
+  | PCall _ [PName "B"; PSub _ (PSlice (Some lo) (Some hi)); PInt 0] _ =>
+      (evalZ env (fun _ => None) lo, evalZ env (fun _ => None) hi)
+  | _ => (None, None) end = (Some (i + 1), Some (i + n)).
+Proof. intros i n. split; reflexivity. Qed.
+
+(* the model of the observer list keeps list order: formatting a concatenation is the concatenation *)
+Lemma format_observers_app : forall a b,
+  format_observers (a ++ b) =
+  match format_observers a, format_observers b with Some x, Some y => Some (x ++ y)%list | _, _ => None end.
+Proof.
+  induction a as [|o a IH]; intros b; simpl.
+  - destruct (format_observers b); reflexivity.
+  - rewrite IH. destruct (obs_step o), (format_observers a), (format_observers b); try reflexivity.
+    now rewrite app_assoc.
+Qed.
